@@ -25,7 +25,23 @@ pub struct Liar<'a, T> { pub inner: std::slice::Iter<'a, T>, pub announce: usize
 impl<'a, T> Iterator for Liar<'a, T> { type Item = &'a T; fn next(&mut self) -> Option<&'a T> { self.inner.next() } fn size_hint(&self) -> (usize, Option<usize>) { (self.announce, Some(self.announce)) } }
 impl<'a, T> ExactSizeIterator for Liar<'a, T> { fn len(&self) -> usize { self.announce } }
 
+/// Honest about `len()`, but with the default (loose) `size_hint`.
+pub struct LooseHint<'a, T> { pub inner: std::slice::Iter<'a, T> }
+impl<'a, T> Iterator for LooseHint<'a, T> { type Item = &'a T; fn next(&mut self) -> Option<&'a T> { self.inner.next() } }
+impl<'a, T> ExactSizeIterator for LooseHint<'a, T> { fn len(&self) -> usize { self.inner.len() } }
+/// Announces `delta` items more than it has, and keeps doing so while it is consumed
+/// (`len()` tracks what is left).
+pub struct Tracking<'a, T> { pub inner: std::slice::Iter<'a, T>, pub delta: usize }
+impl<'a, T> Iterator for Tracking<'a, T> { type Item = &'a T; fn next(&mut self) -> Option<&'a T> { self.inner.next() } fn size_hint(&self) -> (usize, Option<usize>) { let n = self.inner.len() + self.delta; (n, Some(n)) } }
+impl<'a, T> ExactSizeIterator for Tracking<'a, T> { fn len(&self) -> usize { self.inner.len() + self.delta } }
+
 pub trait SeqOps {
+    /// The standalone stream of value i from source `src` through `serialize_with_schema`, with
+    /// its rows.
+    fn ser_schema(&self, i: usize, src: Src) -> Out<(Vec<u8>, Vec<(String, usize, usize, usize)>)>;
+    /// Standalone streams of two unusual exact-size iterators over value i: one honest about
+    /// `len()` with the default `size_hint`, one whose `len()` tracks the items left plus 2.
+    fn odd_iterators(&self, i: usize) -> Vec<(&'static str, Out<usize>, Vec<u8>)>;
     fn elem_ty(&self) -> Ty;
     fn has_iter(&self) -> bool;
     fn build(&self, cap: usize) -> usize;
@@ -193,6 +209,27 @@ macro_rules! seq_ops {
                 let mut sink: Vec<u8> = Vec::new();
                 o3(guarded(|| ser_ctx!(SerIter::from(Liar { inner: v.iter(), announce }), ctx, &mut sink).map_err(|e| format!("{:?}", e))))
             }
+            fn ser_schema(&self, i: usize, src: Src) -> Out<(Vec<u8>, Vec<(String, usize, usize, usize)>)> {
+                let vals = self.0.borrow();
+                let v: &Vec<$t> = &vals[i];
+                o3(guarded(|| {
+                    let mut buf: Vec<u8> = Vec::new();
+                    let schema = match src { Src::Vec => v.clone().serialize_with_schema(&mut buf), Src::Slice => (&v[..]).serialize_with_schema(&mut buf), Src::Iter => SerIter::from(v.iter()).serialize_with_schema(&mut buf) }.map_err(|e| format!("{:?}", e))?;
+                    Ok((buf, schema.0.iter().map(|r| (r.field.clone(), r.offset, r.size, r.align)).collect()))
+                }))
+            }
+            fn odd_iterators(&self, i: usize) -> Vec<(&'static str, Out<usize>, Vec<u8>)> {
+                let vals = self.0.borrow();
+                let v: &Vec<$t> = &vals[i];
+                let mut out = vec![];
+                let mut sink: Vec<u8> = Vec::new();
+                let r = o3(guarded(|| SerIter::from(LooseHint { inner: v.iter() }).serialize(&mut sink).map_err(|e| format!("{:?}", e))));
+                out.push(("honest-len-loose-size-hint", r, sink));
+                let mut sink: Vec<u8> = Vec::new();
+                let r = o3(guarded(|| SerIter::from(Tracking { inner: v.iter(), delta: 2 }).serialize(&mut sink).map_err(|e| format!("{:?}", e))));
+                out.push(("len-tracks-items-left-plus-2", r, sink));
+                out
+            }
             fn reserialize_loaded(&self, i: usize, loader: u8, dev: Option<(usize, u8)>) -> Out<(usize, usize, bool)> {
                 let vals = self.0.borrow();
                 let v: &Vec<$t> = &vals[i];
@@ -275,6 +312,16 @@ macro_rules! seq_ops {
                 }
             }
             fn liar(&self, _i: usize, _announce: usize, _ctx: Ctx) -> Out<usize> { unreachable!() }
+            fn ser_schema(&self, i: usize, src: Src) -> Out<(Vec<u8>, Vec<(String, usize, usize, usize)>)> {
+                let vals = self.0.borrow();
+                let v: &Vec<$t> = &vals[i];
+                o3(guarded(|| {
+                    let mut buf: Vec<u8> = Vec::new();
+                    let schema = match src { Src::Vec => v.clone().serialize_with_schema(&mut buf), Src::Slice => (&v[..]).serialize_with_schema(&mut buf), Src::Iter => unreachable!() }.map_err(|e| format!("{:?}", e))?;
+                    Ok((buf, schema.0.iter().map(|r| (r.field.clone(), r.offset, r.size, r.align)).collect()))
+                }))
+            }
+            fn odd_iterators(&self, _i: usize) -> Vec<(&'static str, Out<usize>, Vec<u8>)> { vec![] }
             fn reserialize_loaded(&self, _i: usize, _loader: u8, _dev: Option<(usize, u8)>) -> Out<(usize, usize, bool)> { Out::Err("not-applicable".into()) }
             fn full_consumed(&self, bytes: &[u8]) -> Out<usize> {
                 let mut cur = std::io::Cursor::new(bytes);
@@ -354,6 +401,36 @@ pub fn borrowed_faults(ops: &dyn SeqOps, cx: &mut Cx, i: usize, want: &Val, srcs
                 }
             }
         }
+}
+
+/// The C18 part over the sequence wrappers: the stream that `serialize_with_schema` writes for a
+/// slice reference or an exact-size iterator is the stream of `serialize`, and its rows satisfy
+/// the forest conditions.
+pub fn c18_wrappers(ops: &dyn SeqOps, cx: &mut Cx) {
+    let n = ops.build(cx.tier.pick(30, 200));
+    let srcs: Vec<Src> = if ops.has_iter() { vec![Src::Vec, Src::Slice, Src::Iter] } else { vec![Src::Vec, Src::Slice] };
+    for i in 0..n {
+        let want = ops.val(i);
+        cx.case(vcore::cx::hash64(&[cx.type_id.as_bytes(), format!("{:?}", want).as_bytes()]), true);
+        for src in &srcs {
+            cx.evals += 1;
+            let (r, plain) = sink_all(ops, i, *src, Ctx::Alone);
+            if !matches!(r, Out::Ok(_)) { continue; }
+            match ops.ser_schema(i, *src) {
+                Out::Ok((bytes, rows)) => {
+                    cx.transitions += rows.len() as u64;
+                    let mask = ops.mask(i, Ctx::Alone);
+                    if !(bytes == plain || (mask.len() == plain.len() && bytes.len() == plain.len() && vcore::checks::masked_eq(&bytes, &plain, &mask))) {
+                        cx.violate("wrapper-schema-stream-differs-from-plain", json!({"value": vdesc(i, &want), "source": format!("{:?}", src), "schema_len": bytes.len(), "plain_len": plain.len()}));
+                    }
+                    for (c, d) in vcore::checks2::schema_forest(&rows, &bytes, 0) { cx.violate(&format!("wrapper-schema-{}", c), json!({"value": vdesc(i, &want), "source": format!("{:?}", src), "observed": d})); }
+                    cx.outcome("wrapper-schema-ok");
+                }
+                o => cx.violate(&format!("wrapper-schema-ser-{}", o.class()), json!({"value": vdesc(i, &want), "source": format!("{:?}", src), "observed": o.describe()})),
+            }
+        }
+        if i == 1 { cx.sample(json!({"schema_of_wrappers_over": cx.type_id, "items": format!("{:?}", want)})); }
+    }
 }
 
 /// The C09 part over re-serialized loaded structures: a `MemCase<&[T]>` serialized again
@@ -511,6 +588,28 @@ pub fn c16(ops: &dyn SeqOps, cx: &mut Cx) {
         }
         // writer faults on borrowed sources (D = 1): the borrowed data must never be freed
         if i < cx.tier.pick(4, 12) { borrowed_faults(ops, cx, i, &want, &srcs); }
+        // unusual but legal exact-size iterators
+        if ops.has_iter() {
+            let b = match &want { Val::Seq(v) => v.len(), _ => 0 };
+            let (_, vb) = sink_all(ops, i, Src::Vec, Ctx::Alone);
+            let mask = ops.mask(i, Ctx::Alone);
+            for (what, r, bytes) in ops.odd_iterators(i) {
+                cx.evals += 1;
+                cx.transitions += 1;
+                if what.starts_with("honest") {
+                    match &r {
+                        Out::Ok(cnt) if *cnt == vb.len() && (bytes == vb || (mask.len() == vb.len() && vcore::checks::masked_eq(&bytes, &vb, &mask))) => cx.outcome("loose-hint-iterator-ok"),
+                        o => cx.violate("honest-iterator-with-loose-size-hint-not-serialized-like-the-vector", json!({"value": vdesc(i, &want), "observed": o.describe(), "len": bytes.len(), "vec_len": vb.len()})),
+                    }
+                } else {
+                    let exp = format!("IteratorLengthMismatch {{ actual: {}, expected: {} }}", b, b + 2);
+                    match &r {
+                        Out::Err(e) if *e == exp => cx.outcome("tracking-liar-reported"),
+                        o => cx.violate("lying-iterator-whose-len-tracks-the-items-left-wrong-report", json!({"value": vdesc(i, &want), "expected": exp, "observed": o.describe()})),
+                    }
+                }
+            }
+        }
         // lying iterators
         if ops.has_iter() {
             let b = match &want { Val::Seq(v) => v.len(), _ => 0 };
